@@ -915,3 +915,21 @@ func SortedKeys[V any](m map[string]V) []string {
 	sort.Strings(ks)
 	return ks
 }
+
+// SameLoad reports whether a and b are loads of the same memory path (same
+// root value and same field/index path). Two such loads denote the same value
+// provided nothing is stored there in between; callers use this for locals
+// and parameters that are not reassigned.
+func SameLoad(a, b ssa.Value) bool {
+	if a == b {
+		return true
+	}
+	ua, ok1 := a.(*ssa.UnOp)
+	ub, ok2 := b.(*ssa.UnOp)
+	if !ok1 || !ok2 || ua.Op != token.MUL || ub.Op != token.MUL {
+		return false
+	}
+	ra, pa := addrPath(ua.X)
+	rb, pb := addrPath(ub.X)
+	return ra == rb && pa == pb && pa != ""
+}
